@@ -2,7 +2,7 @@
    baseline, the plan, the replayed result and (parsed by tools/mysql_sqlparse.py) the MySQL statements THE
    IMPLEMENTATION emitted; everything below is evaluated by vm_compute on those terms.  No proofs here. *)
 From VV.M1 Require Export Corr.
-From VV.MYSQL Require Export Engine Assumptions Known Spec SpecKeys SpecCreate SpecFk.
+From VV.MYSQL Require Export Engine Assumptions Known Spec SpecKeys SpecCreate SpecFk SpecPending.
 
 Inductive impl_result :=
 | IOk (l : list (list stmt))      (* per action, empty strings dropped *)
@@ -138,3 +138,15 @@ Definition sim_stats (cs : list mysql_case) : nat * nat * nat * nat :=
                           then let '(n', k') := sim_stats_plan (mc_base c) (mc_actions c) in
                                (n + n', k + k', S m, if Nat.eqb n' k' then S w else w)%nat
                           else (n, k, m, w)) cs (0, 0, 0, 0)%nat.
+
+(* judged migrations NOT proved as a whole by C04_Sim_plan_proved_kinds: how many are proved as a whole by the pending-set
+   invariant (C04_SimP_plan_equiv), and how many more by the checked ghost-plan theorem (C04_SimP_plan_checked);
+   (not proved by Sim_plan, of which SimP_plan_equiv, of which only the checked theorem) *)
+Definition whole_plain (c : mysql_case) : bool :=
+  let '(n, k) := sim_stats_plan (mc_base c) (mc_actions c) in Nat.eqb n k.
+Definition simp_stats (cs : list mysql_case) : nat * nat * nat :=
+  fold_left (fun acc c => let '(r, f, k) := acc in
+                          if (judged (mc_base c) (mc_actions c) && negb (whole_plain c))%bool
+                          then if simp_plan_full (mc_base c) (mc_actions c) then (S r, S f, k)
+                               else if simp_plan_ok (mc_base c) (mc_actions c) then (S r, f, S k) else (S r, f, k)
+                          else (r, f, k)) cs (0, 0, 0)%nat.
